@@ -172,6 +172,39 @@ func (e *Engine) callAsserts(fr *Frame, st *State, fn *ssa.Function, args []SV, 
 	}
 }
 
+// ifaceCallAsserts: assert_call clauses naming an interface method (pkg.Iface.Method or Iface.Method).
+func (e *Engine) ifaceCallAsserts(fr *Frame, st *State, it types.Type, m *types.Func, args []SV, pos token.Pos) {
+	n, ok := types.Unalias(it).(*types.Named)
+	if !ok {
+		return
+	}
+	short := n.Obj().Name() + "." + m.Name()
+	long := short
+	if n.Obj().Pkg() != nil {
+		long = n.Obj().Pkg().Name() + "." + short
+	}
+	sig := m.Type().(*types.Signature)
+	for k, ca := range e.curContract.CallAsserts {
+		if ca.Text != short && ca.Text != long {
+			continue
+		}
+		if fr.callHits == nil {
+			fr.callHits = map[int]int{}
+		}
+		fr.callHits[k]++
+		env := e.loopEnv(fr, st)
+		for j := 0; j < sig.Params().Len() && j < len(args); j++ {
+			env = env.with(fmt.Sprintf("arg%d", j), TV{V: args[j], T: sig.Params().At(j).Type()})
+		}
+		t, err := e.tryEvalBool(env, ca.Cl.Expr)
+		if err != nil {
+			panic(engErr(fmt.Sprintf("assert_call %s: %v", ca.Text, err)))
+		}
+		ob := e.vc.oblige(fmt.Sprintf("assert_call:%d#", k+1), st.pc, t, fmt.Sprintf("at the call of %s (%s): %s", ca.Text, e.posStr(pos), ca.Cl.Text))
+		ob.Props = ca.Cl.Props
+	}
+}
+
 func (e *Engine) zeroOrNil(t types.Type) SV {
 	if t == nil {
 		return nil
@@ -621,6 +654,9 @@ func (e *Engine) invoke(fr *Frame, st *State, c *ssa.CallCommon, recv SV, args [
 	}
 	if h, ok := invokeIntrinsics[key]; ok {
 		return h(e, fr, st, nil, append([]SV{recv}, args...), resT, pos)
+	}
+	if fr != nil && fr.top && e.curContract != nil && len(e.curContract.CallAsserts) > 0 {
+		e.ifaceCallAsserts(fr, st, it, m, args, pos)
 	}
 	iv := recv.(*IfaceSV)
 	e.vc.oblige(e.oname(fr, "safety:nil#"), st.pc, not(fmt.Sprintf("(= %s 0)", iv.Tag)), "method call on nil interface: "+e.posStr(pos)+" "+key)
